@@ -13,26 +13,42 @@
      rosomaxa/src/termination/mod.rs                    :: CompositeTermination::is_termination (`any`: short-circuit)  -> is_termination
      rosomaxa/src/evolution/config.rs                   :: get_termination (default 3000 generations + 300 s)  -> terminations
      rosomaxa/src/evolution/telemetry.rs                :: Telemetry::on_generation (next_generation, statistics.generation,
-                                                            metrics.generations, metrics.evolution with track_population = 1)  -> on_generation
-     rosomaxa/src/evolution/simulator.rs                :: EvolutionSimulator::new (no initial operator => Err), run (initial phase)  -> initial
-     rosomaxa/src/evolution/strategies/iterative.rs     :: Iterative::run (termination AND quota are both evaluated, then `||`)       -> iloop
-        (parents = selected(); offspring = heuristic.search_many(parents) ++ heuristic.diversify_many(parents);
-         heuristic_ctx.on_generation(offspring, ..) is called in EVERY iteration, whatever the offspring list is)
+                                                            metrics.generations, metrics.evolution for OnlyMetrics { track_population = T }:
+                                                            population not empty && generation % T == 0), on_result (one more entry
+                                                            when statistics.generation % T != 0; T = 0 panics)  -> on_generation, on_result
+     rosomaxa/src/evolution/simulator.rs                :: EvolutionSimulator::new (no initial operator => Err), run: initial.individuals
+                                                            .take(max_size) through on_initial -> seed; (init_size..max_size).try_for_each:
+                                                            is_termination AND estimate > initial.quota both evaluated, operator =
+                                                            operators[idx] while idx < operators.len() else random.weighted(weights)
+                                                            (oracle o_weighted), on_initial -> initial, init_operator
+     rosomaxa/src/evolution/strategies/iterative.rs     :: Iterative::run -> iloop (termination AND quota are both evaluated, then `||`) +
+                                                            generation (the loop body, in the order of the code):
+        parents = ctx.selected(); diverse = if ctx.selection_phase() == Exploitation { [] } else { heuristic.diversify_many(ctx, parents) };
+        search = heuristic.search_many(ctx, parents); offspring = search ++ diverse (NO special case for an empty list);
+        estimate = termination.estimate(ctx); ctx.on_generation(offspring, estimate, timer)  - in EVERY iteration;
+        after the loop: ctx.on_result() -> strategy_result; population.ranked().take(1) -> finish
+     rosomaxa/src/lib.rs                                :: TelemetryHeuristicContext::on_initial (population.add), on_generation
+                                                            (population.add_all; telemetry.on_generation; population.on_generation(statistics)),
+                                                            on_result; vrp-core/src/solver/mod.rs RefinementContext delegates to it
      rosomaxa/src/hyper/mod.rs                          :: trait HyperHeuristic (search_many / diversify_many of a USER-SUPPLIED
-        heuristic, EvolutionConfigBuilder::with_heuristic / VrpConfigBuilder::set_heuristic): ORACLE o_hyper = any list of
-        offspring per generation (empty list, duplicates, copies of parents), given what the built-in operators produced
+        heuristic, EvolutionConfigBuilder::with_heuristic / VrpConfigBuilder::set_heuristic): ORACLES o_hyper / o_diverse = any list of
+        offspring per generation (empty list, duplicates, copies of parents), o_inner = does it run the built-in search at all
      rosomaxa/src/termination/mod.rs                    :: trait Termination, a USER-SUPPLIED criterion that reads
         heuristic_ctx.statistics().generation (placed after the builder's criteria)                            -> TUser
-     rosomaxa/src/population/mod.rs                     :: trait HeuristicPopulation::select of a user-supplied population: any
-        list of parents, also none                                                                             -> o_parents
-     rosomaxa/src/lib.rs                                :: TelemetryHeuristicContext::on_generation / on_result
+     rosomaxa/src/population/mod.rs                     :: trait HeuristicPopulation::select / selection_phase of a user-supplied
+        population: any list of parents, also none; any phase                                                  -> o_parents, o_exploit
+     rosomaxa/src/population/greedy.rs                  :: Greedy::add / add_all / ranked                      -> greedy_add, greedy_add_all, greedy_best
      vrp-core/src/solver/mod.rs                         :: Solver::solve (`cannot find any solution` for an empty population)         -> evolve
      vrp-core/src/solver/search/decompose_search.rs     :: refine_decomposed, the `(0..repeat_count).try_for_each` loop               -> decompose_inner
-   Oracles (theorems quantify over all of them): evaluation results, parent selection, the offspring a user-supplied
-   hyper-heuristic hands over, ruin steps, polls made by other
+     vrp-core/src/solver/search/utils/termination.rs    :: CompositeTimeQuota::is_reached, create_environment_with_custom_quota (crate-private:
+                                                            by reading, no direct correspondence)              -> composite_poll, custom_quota, custom_poll
+   The calls the two loops make on the pluggable pieces are recorded in order (`event`, s_log); s_iters counts the entries into the loop body.
+   Oracles (theorems quantify over all of them): evaluation results, parent selection, selection phase, the offspring a user-supplied
+   hyper-heuristic hands over, the operator random.weighted draws, ruin steps, polls made by other
    search steps (exchange_swap_star.rs, decompose_search.rs), wall clock, which individual the population ranks first.
-   The population is modelled as the list of everything ever added (the real populations keep a subset of it).
-   run_* entry points used by the correspondence: run_evolve, run_process, run_loop (sub-stream c07_loop).  No proofs in this file. *)
+   The population is modelled as the list of everything ever added (the real ones keep a subset of it; the real Greedy exactly: greedy_best).
+   run_* entry points used by the correspondence: run_evolve / run_evolve_cfg, run_process (parent stream), run_loop, run_greedy
+   (sub-stream c07_loop).  No proofs in this file. *)
 From VRP Require Import Base.Tac Model.Homes.
 Local Open Scope nat_scope.
 
@@ -135,17 +151,58 @@ Fixpoint gen_limit (ts : list term) : option nat :=
 Record tele := mkT { t_next : option nat; t_stat_gen : nat; t_metric_gens : nat; t_evolution : list nat }.
 Definition tele0 : tele := mkT None 0 0 [].
 
-Definition on_generation (t : tele) (population_nonempty : bool) : tele :=
+(* Telemetry::on_generation, mode OnlyMetrics { track_population = T }:
+     generation = next_generation.unwrap_or(0); metrics.generations = generation; next_generation = Some(generation + 1);
+     statistics.generation = generation;  population.ranked().next() = Some(_) && generation % T == 0 => metrics.evolution.push(number = generation) *)
+Definition on_generation (T : nat) (t : tele) (population_nonempty : bool) : tele :=
   let g := match t_next t with Some g => g | None => 0 end in
-  mkT (Some (S g)) g g (if population_nonempty then t_evolution t ++ [g] else t_evolution t).
+  mkT (Some (S g)) g g (if population_nonempty && (g mod T =? 0) then t_evolution t ++ [g] else t_evolution t).
 
-(* number of generations that were run *)
+(* Telemetry::on_result, OnlyMetrics: generations = statistics.generation; `generations % T != 0` => on_population pushes one more
+   entry (number = statistics.generation) WHATEVER the population holds; the counters stay as they are *)
+Definition on_result (T : nat) (t : tele) : tele :=
+  mkT (t_next t) (t_stat_gen t) (t_metric_gens t)
+      (if t_stat_gen t mod T =? 0 then t_evolution t else t_evolution t ++ [t_stat_gen t]).
+
+(* number of generations that were run = number of Telemetry::on_generation calls *)
 Definition gens_run (t : tele) : nat := match t_next t with Some n => n | None => 0 end.
+
+(* ------------------------------------------------------------------ rosomaxa/src/population/greedy.rs :: Greedy (add, add_all, ranked)
+   `fit` = the objective's total order as a number (smaller is better); add keeps best_known unless
+   total_order(best_known, individual) == Greater; add_all folds add and tells whether anything improved *)
+Definition greedy_add {A} (fit : A -> nat) (best : option A) (x : A) : option A * bool :=
+  match best with
+  | Some b => if fit b <=? fit x then (Some b, false) else (Some x, true)
+  | None => (Some x, true)
+  end.
+Definition greedy_add_all {A} (fit : A -> nat) (best : option A) (xs : list A) : option A * bool :=
+  fold_left (fun acc x => let '(b, imp) := greedy_add fit (fst acc) x in (b, imp || snd acc)) xs (best, false).
+(* index of the individual Greedy::ranked().next() yields when the population received `l` (in this order) *)
+Fixpoint greedy_best_from {A} (fit : A -> nat) (l : list A) (i : nat) (bi : nat) (bf : nat) : nat :=
+  match l with
+  | [] => bi
+  | x :: r => if bf <=? fit x then greedy_best_from fit r (S i) bi bf else greedy_best_from fit r (S i) i (fit x)
+  end.
+Definition greedy_best {A} (fit : A -> nat) (l : list A) : nat :=
+  match l with [] => 0 | x :: r => greedy_best_from fit r 1 0 (fit x) end.
 
 (* ------------------------------------------------------------------ (ii)/(iii) EvolutionSimulator::run, Iterative::run *)
 Inductive rop := RJob (route : nat) (j : Z) | RRoute (route : nat) | RDropEmpty.
 Definition rop_hop (r : rop) : hop :=
   match r with RJob k j => HRemoveJob k j | RRoute k => HRemoveRoute k | RDropEmpty => HDropEmpty end.
+
+(* the calls the two loops make on the pluggable pieces (traits Termination, InitialOperator, HeuristicPopulation, HyperHeuristic),
+   in the order the code makes them; `stat` = statistics().generation at that moment *)
+Inductive event :=
+| EvTerm (stat : nat) (answer : bool)            (* termination.is_termination(ctx) *)
+| EvEstimate (stat : nat)                        (* termination.estimate(ctx) *)
+| EvCreate (op : nat)                            (* initial.operators[op].create(ctx) *)
+| EvAdd                                          (* ctx.on_initial -> population.add *)
+| EvSelect (parents : nat)                       (* ctx.selected() -> population.select() *)
+| EvDiversify (returned : nat)                   (* heuristic.diversify_many(ctx, parents) (not in the Exploitation phase) *)
+| EvSearch (stat parents returned : nat)         (* heuristic.search_many(ctx, parents) *)
+| EvAddAll (n : nat)                             (* ctx.on_generation -> population.add_all(offspring) *)
+| EvPopGen (stat : nat).                         (* ctx.on_generation -> population.on_generation(statistics) *)
 
 Record econfig := mkC {
   c_jobs : list Z;            (* the plan *)
@@ -157,28 +214,45 @@ Record econfig := mkC {
   c_user_term : option nat;         (* a user-supplied Termination wrapped around the builder's: `statistics().generation >= limit` *)
   c_init_ops : nat;           (* number of initial operators *)
   c_init_size : nat;          (* initial.max_size *)
-  c_fuel : nat                (* bound on loop iterations used ONLY when no generation limit is configured *)
+  c_fuel : nat;               (* bound on loop iterations used ONLY when no generation limit is configured *)
+  c_individuals : list hsol;  (* initial.individuals (with_init_solutions) *)
+  c_track : nat               (* TelemetryMode::OnlyMetrics { track_population } *)
 }.
 
 Record oracles := mkO {
   o_time : nat -> bool;                              (* MaxTime::is_termination at its t-th evaluation *)
   o_other : nat -> nat -> bool;                      (* MinVariation (0) / TargetProximity (1) at the t-th oracle evaluation *)
-  o_init_quota : nat -> bool;                        (* MaxTime's estimate > initial.quota at the idx-th initial check *)
-  o_init_ev : nat -> nat -> hsol -> eres;            (* evaluator results inside the idx-th initial operator *)
-  o_parents : nat -> list hsol -> list nat;          (* selected(): indices into the population, generation g *)
-  o_ruin : nat -> nat -> hsol -> list rop;           (* ruin of the j-th parent of generation g *)
+  o_init_quota : nat -> bool;                        (* MaxTime's estimate > initial.quota at the check of initial slot idx *)
+  o_weighted : nat -> nat;                           (* random.weighted(weights) for initial slot idx (>= number of operators) *)
+  o_init_ev : nat -> nat -> nat -> hsol -> eres;     (* evaluator results inside operator op called for initial slot idx *)
+  o_parents : nat -> list hsol -> list nat;          (* selected(): indices into the population, loop iteration g *)
+  o_exploit : nat -> bool;                           (* selection_phase() == Exploitation in iteration g *)
+  o_diverse : nat -> list hsol -> list hsol;         (* what diversify_many of a user-supplied HyperHeuristic returns in iteration g *)
+  o_inner : nat -> bool;                             (* does the user-supplied search_many run the built-in search in iteration g *)
+  o_ruin : nat -> nat -> hsol -> list rop;           (* ruin of the j-th parent of iteration g *)
   o_search_ev : nat -> nat -> nat -> hsol -> eres;   (* evaluator results inside its recreate *)
   o_skip : nat -> nat -> nat;                        (* quota polls by other steps before offspring j (j = #parents: after the last) *)
   o_best : list hsol -> nat;                         (* index of ranked().next() *)
-  o_hyper : nat -> list hsol -> list hsol -> list hsol  (* what a user-supplied HyperHeuristic hands over in generation g, given the
-                                                          population and the offspring of the built-in search: ANY list *)
+  o_hyper : nat -> list hsol -> list hsol -> list hsol  (* what search_many of a user-supplied HyperHeuristic returns in iteration g, given
+                                                          the population and the offspring of the built-in search: ANY list *)
 }.
 
-Record estate := mkS { s_pop : list hsol; s_tele : tele; s_polls : nat; s_tpolls : nat }.
+(* s_iters = iterations of Iterative::run that got past the termination / quota test (= search_many calls) *)
+Record estate := mkS { s_pop : list hsol; s_tele : tele; s_polls : nat; s_tpolls : nat; s_iters : nat; s_log : list event }.
 
 Definition cfg_terms (cfg : econfig) : list term :=
   terminations (c_max_gen cfg) (c_max_time cfg) (c_min_cv cfg) (c_target cfg)
   ++ match c_user_term cfg with Some l => [TUser l] | None => [] end.
+
+(* EvolutionSimulator::run, first fold: initial.individuals.take(max_size), each handed to ctx.on_initial *)
+Definition seeded (cfg : econfig) : list hsol := firstn (c_init_size cfg) (c_individuals cfg).
+Definition seed (cfg : econfig) (st : estate) : estate :=
+  mkS (s_pop st ++ seeded cfg) (s_tele st) (s_polls st) (s_tpolls st) (s_iters st) (s_log st ++ map (fun _ => EvAdd) (seeded cfg)).
+
+(* (init_size..max_size).try_for_each(|idx| ..): n = slots left, idx = the slot.  Per slot BOTH is_termination and
+   estimate > initial.quota are evaluated; the operator is operators[idx] while idx < operators.len(), then random.weighted(weights) *)
+Definition init_operator (cfg : econfig) (W : oracles) (idx : nat) : nat :=
+  if idx <? c_init_ops cfg then idx else o_weighted W idx.
 
 Fixpoint initial (n idx : nat) (cfg : econfig) (W : oracles) (q : quota) (st : estate) : option estate :=
   match n with
@@ -187,15 +261,19 @@ Fixpoint initial (n idx : nat) (cfg : econfig) (W : oracles) (q : quota) (st : e
     let gen := t_stat_gen (s_tele st) in
     let '(is_overall_termination, tp) := is_termination (cfg_terms cfg) gen (o_time W) (o_other W) (s_tpolls st) in
     let is_initial_quota_reached := est_exceeds (cfg_terms cfg) gen (o_init_quota W idx) in
+    let log1 := s_log st ++ [EvTerm gen is_overall_termination; EvEstimate gen] in
     if is_initial_quota_reached || is_overall_termination
-    then Some (mkS (s_pop st) (s_tele st) (s_polls st) tp)
-    else match process (o_init_ev W idx) q (mkP (init (c_jobs cfg)) (c_reg cfg) (s_polls st) 0) with
-         | None => None
-         | Some p => initial n' (S idx) cfg W q (mkS (s_pop st ++ [p_sol p]) (s_tele st) (p_polls p) tp)
-         end
+    then Some (mkS (s_pop st) (s_tele st) (s_polls st) tp (s_iters st) log1)
+    else
+      let op := init_operator cfg W idx in
+      match process (o_init_ev W idx op) q (mkP (init (c_jobs cfg)) (c_reg cfg) (s_polls st) 0) with
+      | None => None
+      | Some p => initial n' (S idx) cfg W q
+                          (mkS (s_pop st ++ [p_sol p]) (s_tele st) (p_polls p) tp (s_iters st) (log1 ++ [EvCreate op; EvAdd]))
+      end
   end.
 
-(* search_many: one offspring per selected parent: ruin (removal steps) then recreate (process) *)
+(* the built-in search_many: one offspring per selected parent: ruin (removal steps) then recreate (process) *)
 Fixpoint offspring (g j : nat) (parents : list nat) (cfg : econfig) (W : oracles) (q : quota) (pop : list hsol) (polls : nat)
   : option (list hsol * nat) :=
   match parents with
@@ -216,20 +294,43 @@ Fixpoint offspring (g j : nat) (parents : list nat) (cfg : econfig) (W : oracles
     end
   end.
 
+Definition nonempty {A} (l : list A) : bool := match l with [] => false | _ => true end.
+
+(* the body of Iterative::run's loop after the termination / quota test:
+     parents = ctx.selected().collect();
+     diverse_offspring = if ctx.selection_phase() == Exploitation { vec![] } else { heuristic.diversify_many(ctx, parents.clone()) };
+     search_offspring = heuristic.search_many(ctx, parents);
+     offspring = search_offspring ++ diverse_offspring;            -- may be EMPTY: no special case, the iteration goes on
+     termination_estimate = termination.estimate(ctx);
+     ctx.on_generation(offspring, termination_estimate, timer):  population.add_all(offspring);
+                                                                  telemetry.on_generation(population, ..);
+                                                                  population.on_generation(telemetry.statistics) *)
 Definition generation (cfg : econfig) (W : oracles) (q : quota) (st : estate) : option estate :=
-  let g := gens_run (s_tele st) in
-  match offspring g 0 (o_parents W g (s_pop st)) cfg W q (s_pop st) (s_polls st) with
+  let g := s_iters st in
+  let pop := s_pop st in
+  let stat := t_stat_gen (s_tele st) in
+  let parents := o_parents W g pop in
+  let diverse := if o_exploit W g then [] else o_diverse W g pop in
+  let log1 := s_log st ++ [EvSelect (length parents)] ++ (if o_exploit W g then [] else [EvDiversify (length diverse)]) in
+  match (if o_inner W g then offspring g 0 parents cfg W q pop (s_polls st) else Some ([], s_polls st + o_skip W g 0)) with
   | None => None
   | Some (offs, polls) =>
-    (* heuristic_ctx.on_generation(offspring, ..): population.add_all(offspring); telemetry.on_generation(..) - in every iteration *)
-    let pop := s_pop st ++ o_hyper W g (s_pop st) offs in
-    Some (mkS pop (on_generation (s_tele st) (match pop with [] => false | _ => true end)) polls (s_tpolls st))
+    let search := o_hyper W g pop offs in
+    let handed := search ++ diverse in
+    let pop' := pop ++ handed in
+    let tele' := on_generation (c_track cfg) (s_tele st) (nonempty pop') in
+    Some (mkS pop' tele' polls (s_tpolls st) (S g)
+              (log1 ++ [EvSearch stat (length parents) (length search); EvEstimate stat;
+                        EvAddAll (length handed); EvPopGen (t_stat_gen tele')]))
   end.
 
+(* Iterative::run: loop { is_terminated = termination.is_termination(ctx); is_quota_reached = quota.is_reached();
+                          if is_terminated || is_quota_reached { break }  <generation> } *)
 Fixpoint iloop (fuel : nat) (cfg : econfig) (W : oracles) (q : quota) (st : estate) : option estate :=
-  let '(is_terminated, tp) := is_termination (cfg_terms cfg) (t_stat_gen (s_tele st)) (o_time W) (o_other W) (s_tpolls st) in
+  let stat := t_stat_gen (s_tele st) in
+  let '(is_terminated, tp) := is_termination (cfg_terms cfg) stat (o_time W) (o_other W) (s_tpolls st) in
   let is_quota_reached := q (s_polls st) in
-  let st1 := mkS (s_pop st) (s_tele st) (S (s_polls st)) tp in
+  let st1 := mkS (s_pop st) (s_tele st) (S (s_polls st)) tp (s_iters st) (s_log st ++ [EvTerm stat is_terminated]) in
   if is_terminated || is_quota_reached then Some st1
   else match fuel with
        | O => None
@@ -237,26 +338,40 @@ Fixpoint iloop (fuel : nat) (cfg : econfig) (W : oracles) (q : quota) (st : esta
        end.
 
 Inductive eerr := ErrNoInitialMethods | ErrNoSolution.
-Inductive eresult := EOk (best : hsol) (final : estate) | EErr (e : eerr) | EFuel.
+(* EPanic: `generation % track_population` with track_population = 0 (telemetry.rs, OnlyMetrics) *)
+Inductive eresult := EOk (best : hsol) (final : estate) | EErr (e : eerr) | EFuel | EPanic.
 
 Definition loop_fuel (cfg : econfig) : nat :=
   match gen_limit (cfg_terms cfg) with Some l => S l | None => c_fuel cfg end.
 
-Definition estate0 : estate := mkS [] tele0 0 0.
+Definition estate0 : estate := mkS [] tele0 0 0 0 [].
 
+(* the end of Iterative::run: ctx.on_result() = telemetry.on_result(population) + take_metrics (whatever the population holds) *)
+Definition strategy_result (cfg : econfig) (st : estate) : estate :=
+  mkS (s_pop st) (on_result (c_track cfg) (s_tele st)) (s_polls st) (s_tpolls st) (s_iters st) (s_log st).
+
+(* solutions = population.ranked().take(1); Solver::solve: the first one or Err("cannot find any solution") *)
+Definition finish (cfg : econfig) (W : oracles) (st : estate) : eresult :=
+  match s_pop st with
+  | [] => EErr ErrNoSolution
+  | h :: _ => EOk (nth (o_best W (s_pop st)) (s_pop st) h) st
+  end.
+
+(* EvolutionSimulator::run up to the end of Iterative::run: the state Solver::solve looks at (None: fuel) *)
+Definition evolve_run (cfg : econfig) (W : oracles) (q : quota) : option estate :=
+  let st0 := seed cfg estate0 in
+  match initial (c_init_size cfg - length (seeded cfg)) (length (seeded cfg)) cfg W q st0 with
+  | None => None
+  | Some st1 => match iloop (loop_fuel cfg) cfg W q st1 with None => None | Some st2 => Some (strategy_result cfg st2) end
+  end.
+
+(* EvolutionSimulator::new (no initial operator => Err) + run + Solver::solve *)
 Definition evolve (cfg : econfig) (W : oracles) (q : quota) : eresult :=
   if c_init_ops cfg =? 0 then EErr ErrNoInitialMethods
-  else match initial (c_init_size cfg) 0 cfg W q estate0 with
+  else if c_track cfg =? 0 then EPanic
+  else match evolve_run cfg W q with
        | None => EFuel
-       | Some st1 =>
-         match iloop (loop_fuel cfg) cfg W q st1 with
-         | None => EFuel
-         | Some st2 =>
-           match s_pop st2 with
-           | [] => EErr ErrNoSolution
-           | h :: _ => EOk (nth (o_best W (s_pop st2)) (s_pop st2) h) st2
-           end
-         end
+       | Some st2 => finish cfg W st2
        end.
 
 (* ------------------------------------------------------------------ (iv) DecomposeSearch::refine_decomposed inner loop
@@ -269,55 +384,111 @@ Fixpoint decompose_inner (repeat : nat) (q : quota) (polls : nat) (inner : nat -
     if q polls1 then (S done, S polls1) else decompose_inner r q (S polls1) inner (S done)
   end.
 
+(* ------------------------------------------------------------------ (v) the quota a nested search step polls
+   vrp-core/src/solver/search/utils/termination.rs :: CompositeTimeQuota::is_reached = `timer.elapsed_millis() > limit || inner.is_reached()`
+   (short-circuit: the outer quota is not polled once the clock part is true; p = polls of the outer quota made so far),
+   create_environment_with_custom_quota(limit, environment) used by decompose_search.rs and exchange_swap_star.rs:
+     (Some, None) => TimeQuota, (None, Some(quota)) => quota, (Some, Some(inner)) => CompositeTimeQuota, (None, None) => None *)
+Definition composite_poll (time_up : bool) (inner : quota) (p : nat) : bool * nat :=
+  if time_up then (true, p) else (inner p, S p).
+Inductive cquota := CNone | CTime | COuter | CComposite.
+Definition custom_quota (limit outer : bool) : cquota :=
+  match limit, outer with
+  | true, false => CTime
+  | false, true => COuter
+  | true, true => CComposite
+  | false, false => CNone
+  end.
+(* one poll `environment.quota.as_ref().is_some_and(|q| q.is_reached())` on the environment of the nested step *)
+Definition custom_poll (c : cquota) (time_up : bool) (inner : quota) (p : nat) : bool * nat :=
+  match c with
+  | CNone => (false, p)
+  | CTime => (time_up, p)
+  | COuter => (inner p, S p)
+  | CComposite => composite_poll time_up inner p
+  end.
+
 (* ------------------------------------------------------------------ correspondence entry points *)
 (* loop-level observables of one solve with the deterministic layout: the plan is abstracted to [] (no insertion-loop poll),
    the polls observed inside the initial phase / inside generation g of the UNINTERRUPTED run are fed through o_skip.
    (the other criteria of the configuration never fire in this evaluation: the prediction is exact when they cannot fire and an
    upper bound on the generations otherwise)
    result: (code, generations run, metrics.generations, |metrics.evolution|, polls) with code 0 = solution, 1 = "cannot find any
-   solution", 2 = no initial operator, 3 = fuel *)
+   solution", 2 = no initial operator, 3 = fuel, 4 = panic *)
 Definition skip_oracles (init_polls : nat) (gen_polls : list nat) : oracles :=
-  mkO (fun _ => false) (fun _ _ => false) (fun _ => false) (fun _ _ _ => EFailure None false false)
-      (fun _ _ => []) (fun _ _ _ => []) (fun _ _ _ _ => EFailure None false false)
+  mkO (fun _ => false) (fun _ _ => false) (fun _ => false) (fun _ => 0) (fun _ _ _ _ => EFailure None false false)
+      (fun _ _ => []) (fun _ => true) (fun _ _ => []) (fun _ => true) (fun _ _ _ => []) (fun _ _ _ _ => EFailure None false false)
       (fun g _ => nth g gen_polls 0) (fun _ => 0) (fun _ _ offs => offs).
 
 Definition run_evolve_cfg (max_gen : nat) (max_time : bool) (min_cv : option (bool * nat)) (target : bool)
            (init_polls : nat) (gen_polls : list nat) (k : option nat) : nat * nat * nat * nat * nat :=
-  let cfg := mkC [] 1 (Some max_gen) max_time min_cv target None 4 4 0 in
+  let cfg := mkC [] 1 (Some max_gen) max_time min_cv target None 4 4 0 [] 1 in
   let q : quota := fun n => counting_quota k (n + init_polls) in
   match evolve cfg (skip_oracles init_polls gen_polls) q with
   | EOk _ st => (0, gens_run (s_tele st), t_metric_gens (s_tele st), length (t_evolution (s_tele st)), s_polls st + init_polls)
   | EErr ErrNoSolution => (1, 0, 0, 0, 0)
   | EErr ErrNoInitialMethods => (2, 0, 0, 0, 0)
   | EFuel => (3, 0, 0, 0, 0)
+  | EPanic => (4, 0, 0, 0, 0)
   end.
 
 Definition run_evolve (max_gen : nat) := run_evolve_cfg max_gen false None false.
 
-(* sub-stream c07_loop: the loop driven with USER-SUPPLIED pieces (scripted hyper-heuristic / population / termination).
-   Per generation g the run itself tells: parents g = how many parents the population selected, mult g = how often the scripted
-   heuristic hands over each offspring of the built-in search (0 = it drops them all), diverse g = how many further solutions it
-   adds (diversify_many), gen_polls g = quota polls made inside the generation.  The plan is abstracted to [] as in run_evolve.
-   result: (code, generations run, metrics.generations, metrics.evolution numbers, polls, individuals ever handed to the population) *)
-Definition loop_oracles (gen_polls parents mult diverse : list nat) : oracles :=
-  mkO (fun _ => false) (fun _ _ => false) (fun _ => false) (fun _ _ _ => EFailure None false false)
-      (fun g pop => seq 0 (Nat.min (nth g parents 0) (length pop)))
+(* sub-stream c07_loop: the two loops driven with USER-SUPPLIED pieces (scripted hyper-heuristic / population / termination /
+   initial operators).  Per loop iteration g the run itself tells: parents g = how many parents the population selected,
+   inner g = did the scripted heuristic run the built-in search, mult g = how often it hands over each offspring of the built-in
+   search (0 = it drops them all), exploit g = selection phase Exploitation (no diversify_many call), diverse g = how many
+   solutions diversify_many returned, gen_polls g = quota polls made inside the iteration; weighted = the operator chosen for the
+   initial slots idx >= number of operators; time = the answers of MaxTime::is_termination in the order it was evaluated, iq = per
+   initial slot whether MaxTime's estimate exceeded initial.quota.  The plan is abstracted to [] as in run_evolve.
+   result: (code, (generations run, loop iterations, metrics.generations), metrics.evolution numbers, polls, individuals ever
+   handed to the population, the calls on the pluggable pieces in order) *)
+Definition loop_oracles (time iq : list bool) (weighted gen_polls parents : list nat) (inner : list bool) (mult : list nat)
+           (exploit : list bool) (diverse : list nat) : oracles :=
+  mkO (fun t => nth t time false) (fun _ _ => false) (fun idx => nth idx iq false) (fun idx => nth idx weighted 0)
+      (fun _ _ _ _ => EFailure None false false)
+      (fun g pop => repeat 0 (nth g parents 0))
+      (fun g => nth g exploit true)
+      (fun g pop => match pop with [] => [] | h :: _ => repeat h (nth g diverse 0) end)
+      (fun g => nth g inner true)
       (fun _ _ _ => []) (fun _ _ _ _ => EFailure None false false)
       (fun g j => if j =? 0 then nth g gen_polls 0 else 0) (fun _ => 0)
-      (fun g pop offs => flat_map (fun s => repeat s (nth g mult 1)) offs
-                         ++ match pop with [] => [] | h :: _ => repeat h (nth g diverse 0) end).
+      (fun g pop offs => flat_map (fun s => repeat s (nth g mult 1)) offs).
 
-Definition run_loop (max_gen user_term : option nat) (init_ops init_size : nat) (fuel : nat)
-           (init_polls : nat) (gen_polls parents mult diverse : list nat) (k : option nat)
-  : nat * nat * nat * list nat * nat * nat :=
-  let cfg := mkC [] 1 max_gen false None false user_term init_ops init_size fuel in
-  let q : quota := fun n => counting_quota k (n + init_polls) in
-  match evolve cfg (loop_oracles gen_polls parents mult diverse) q with
-  | EOk _ st => (0, gens_run (s_tele st), t_metric_gens (s_tele st), t_evolution (s_tele st), s_polls st + init_polls, length (s_pop st))
-  | EErr ErrNoSolution => (1, 0, 0, [], 0, 0)
-  | EErr ErrNoInitialMethods => (2, 0, 0, [], 0, 0)
-  | EFuel => (3, 0, 0, [], 0, 0)
+Definition ev_code (e : event) : nat * nat * nat * nat :=
+  match e with
+  | EvTerm s a => (0, s, if a then 1 else 0, 0)
+  | EvEstimate s => (1, s, 0, 0)
+  | EvCreate op => (2, op, 0, 0)
+  | EvAdd => (3, 0, 0, 0)
+  | EvSelect n => (4, n, 0, 0)
+  | EvDiversify n => (5, n, 0, 0)
+  | EvSearch s p r => (6, s, p, r)
+  | EvAddAll n => (7, n, 0, 0)
+  | EvPopGen s => (8, s, 0, 0)
   end.
+
+Definition run_loop (max_gen user_term : option nat) (max_time : bool) (init_ops init_size individuals track fuel init_polls : nat)
+           (time iq : list bool) (weighted gen_polls parents : list nat) (inner : list bool) (mult : list nat) (exploit : list bool)
+           (diverse : list nat) (k : option nat)
+  : nat * ((nat * nat * nat) * list nat * nat * nat * list (nat * nat * nat * nat)) :=
+  let cfg := mkC [] 1 max_gen max_time None false user_term init_ops init_size fuel (repeat (init []) individuals) track in
+  let q : quota := fun n => counting_quota k (n + init_polls) in
+  let W := loop_oracles time iq weighted gen_polls parents inner mult exploit diverse in
+  let obs := fun st : estate => ((gens_run (s_tele st), s_iters st, t_metric_gens (s_tele st)), t_evolution (s_tele st),
+                                 s_polls st + init_polls, length (s_pop st), map ev_code (s_log st)) in
+  let obs_run := match evolve_run cfg W q with Some st => obs st | None => ((0, 0, 0), [], 0, 0, []) end in
+  match evolve cfg W q with
+  | EOk _ st => (0, obs st)
+  | EErr ErrNoSolution => (1, obs_run)
+  | EErr ErrNoInitialMethods => (2, obs_run)
+  | EFuel => (3, obs_run)
+  | EPanic => (4, obs_run)
+  end.
+
+(* the scalar domain with the real Greedy population: fits = the fitness of every individual handed to the population, in order;
+   result = index of the one ranked().next() yields at the end *)
+Definition run_greedy (fits : list nat) : nat := greedy_best (fun x => x) fits.
 
 (* one run of the insertion loop on ids 0..n-1 where every evaluation succeeds into route 0: (inserted, unassigned, polls) *)
 Definition run_process (njobs : nat) (k : option nat) : nat * nat * nat :=
